@@ -50,6 +50,11 @@
                              the consumer cancels, and a Check goroutine's context.Canceled becomes the
                              pool's first error, which evaluate ignores
      A transient answer whose shortfall neither trigger explains is a PROP like any other.
+   Fault runs (extra kind 1): one datastore read of the call failed with a plain error; the answer must
+     be an error or exactly the permitted set — a successful answer that misses a permitted object is a
+     PROP (KNOWN eval_error_lost_on_cancel only when it was transient: the same fault, repeated twice,
+     gave an error or the complete set).  Barrier trials (extra kind 2): never more objects than the
+     limit, no duplicates, only permitted objects; no listed finding allows MORE than the limit.
    DIFF: the extracted Coq [evaluate], run on the recorded candidate stream with check := Sem and
      the arrival order reconstructed from the observed result, differs (as a set) from the result
      although no PROP/KNOWN explains the run.
@@ -156,7 +161,7 @@ let dump_case id m cs store ats md fuel requests =
     let strat = stratified m in
     List.iter (fun rv ->
       match as_list rv with
-      | [s; px; otv; relv; _runs; streams] ->
+      | s :: px :: otv :: relv :: _runs :: streams :: _ ->
         let subj = dec_subject s in
         let pathx = List.map dec_pair (as_list px) in
         let ot = n_of_int (as_int otv) in
@@ -207,7 +212,7 @@ let f _id vs =
     let props = ref [] and diffs = ref [] and knowns = ref [] in
     List.iter (fun rv ->
       match as_list rv with
-      | [s; px; otv; relv; runs; streams] ->
+      | s :: px :: otv :: relv :: runs :: streams :: extras_opt ->
         let subj = dec_subject s in
         let pathx = List.map dec_pair (as_list px) in
         let ot = n_of_int (as_int otv) in
@@ -399,7 +404,46 @@ let f _id vs =
                   | None -> ()
                 end
               end
-            | _ -> failwith "run") (as_list runs)
+            | _ -> failwith "run") (as_list runs);
+          (* ---- fault runs and barrier trials ---- *)
+          let e_eff e = if e = 2 && (match subj with SObj _ -> false | _ -> true) then 0 else e in
+          List.iter (fun xv ->
+            match as_list xv with
+            | [I "1"; bv; ev; kv; varv; trv; ecv; ovs] when subj_valid ->
+              (* a datastore read of this call failed with a plain error: the answer must be an error or
+                 the complete permitted set (unary, maxResults 1000 > |universe|) *)
+              let b = as_int bv and e = e_eff (as_int ev) and ec = as_int ecv and transient = as_int trv = 1 in
+              let objs = List.map as_int (as_list ovs) in
+              let fdesc = Printf.sprintf "datastore read #%d of the call failed (%s)" (as_int kv)
+                  (if as_int varv = 1 then "iterator error" else "call error") in
+              if ec = 0 then begin
+                if List.length (uniq objs) <> List.length objs then
+                  props := (Printf.sprintf "%s: %s, success reported and an object is returned twice" (where b e) fdesc) :: !props;
+                List.iter (fun id ->
+                  if not (isperm id) then
+                    ignore (deviation b e true id (Printf.sprintf "returned although not permitted; %s, success reported" fdesc))) (uniq objs);
+                List.iter (fun id ->
+                  if not (List.mem id objs) then begin
+                    if transient && e <> 2 then
+                      known "eval_error_lost_on_cancel"
+                        (Printf.sprintf "%s: object %d permitted but missing; %s and success was reported once (two repetitions of the same fault did not show it again)" (where b e) id fdesc)
+                    else
+                      ignore (deviation b e false id
+                                (Printf.sprintf "permitted but missing from a SUCCESSFUL answer although %s: a response without error must be the complete permitted set" fdesc))
+                  end) permitted
+              end
+            | [I "2"; bv; ev; limv; parv; cntv; ecv; ovs] when subj_valid ->
+              let b = as_int bv and e = as_int ev and limit = as_int limv and ec = as_int ecv in
+              let objs = List.map as_int (as_list ovs) in
+              let w = Printf.sprintf "%s limit=%d, %d confirming Checks released together (%d trial(s))" (where b e) limit (as_int parv) (as_int cntv) in
+              if ec = 0 || ec = 1 then begin
+                if limit > 0 && List.length objs > limit then
+                  props := (Printf.sprintf "%s: %d objects returned, more than the limit" w (List.length objs)) :: !props;
+                if List.length (uniq objs) <> List.length objs then props := (w ^ ": an object is returned twice") :: !props;
+                List.iter (fun id ->
+                  if not (isperm id) then ignore (deviation b e true id "returned (barrier trial) although not permitted")) (uniq objs)
+              end
+            | _ -> ()) (match extras_opt with x :: _ -> as_list x | [] -> [])
         end
       | _ -> failwith "request") (as_list requests);
     (match !props, !diffs, !knowns with
